@@ -2,7 +2,7 @@
 import itertools
 
 ID = 'C06'
-LEAN_MODULES = ['C06', 'C06b']
+LEAN_MODULES = ['C06', 'C06b', 'C06c']
 RULE = ('one case = 2-4 real nodes over loopback RPC; bulk writes (put_many/del_many shapes: 1-300 documents under one stamp through the real multi_put/multi_del) and, for every operation kind (put, del) and every subset S of the other nodes standing for the replicas the level selected (sizes 0..n-1: None, One, Two, Three, '
         'quorum-sized, All), every subset of S is made unable to acknowledge (its next storage mutation fails, or it has crashed and refuses connections while still selected, or - separate stream - it stays SILENT: its storage call writes and never returns, and the call must still come back with the consistency error within the advertised timeout), the write is issued through the real handle_consistency_distribution, and immediately afterwards '
         'Storage::get is called on the issuer and on every selected node. Checked: Ok => the document (or a newer record) is readable from the issuer and from EVERY selected node; otherwise the error is '
@@ -19,7 +19,7 @@ SHRINK = False
 def augment(case, impl):
     out = []
     for l, o in zip(case, impl):
-        if l.split()[0] in ('put', 'del', 'mput', 'mdel', 'wput', 'wdel', 'wmput', 'wmdel') and 'ts=' in o:
+        if l.split()[0] in ('put', 'del', 'mput', 'mdel', 'wput', 'wdel', 'wmput', 'wmdel', 'dist-put') and 'ts=' in o:
             out.append(l + ' ts=' + o.split('ts=')[1].split()[0])
         else:
             out.append(l)
@@ -106,6 +106,30 @@ def generate(rng, tier):
     hang_cases = rng.shuffle(hang_cases)[:dict(quick=18, thorough=len(hang_cases), search=40)[tier]]
     for lines in hang_cases:
         cases.append(['case %d cluster' % idx] + lines); idx += 1
+    # "...and still replicated later" (D32): a write that failed its level because a replica stayed silent - and every write
+    # after it - still travels to the other nodes: through the task distributor of the issuer (its batch tick must not wait
+    # for the silent member for ever) and through the repair cycle of the others (their poll of the silent member must end).
+    later = []
+    for n in (3, 4):
+        for hung in range(1, n):
+            members = ','.join('%d@%d' % (10 + j, j) for j in range(1, n))
+            for first in ('wput', 'dist'):
+                lines = ['nodes %d' % n, 'dist-start 0', 'dist-change 0 - %s' % members, 'hangnext %d' % hung]
+                if first == 'wput':
+                    lines += ['wput 0 %d 5 bb' % hung, 'get 0 5']
+                lines += ['dist-put 0 6 cc', 'dist-put 0 7 dd late', 'dist-put 0 8 ee late']      # every tick with a silent member lasts until the deadline of its requests
+                for j in range(1, n):
+                    if j != hung: lines += ['get %d 7' % j, 'read %d' % j]
+                lines.append('end'); later.append(lines)
+            # the repair cycle of a healthy node: the silent member has the smaller id and is polled first
+            other = [j for j in range(1, n) if j != hung][0]
+            lines = ['nodes %d' % n, 'hangnext %d' % hung, 'wput 0 %d 5 bb' % hung, 'put 0 6 cc',
+                     'poll-start %d 300' % other, 'poll-change %d - %d@%d,%d@0' % (other, 3, hung, 9), 'poll-wait %d 13500' % other,
+                     'get %d 6' % other, 'read %d' % other, 'end']
+            later.append(lines)
+    later = rng.shuffle(later)[:dict(quick=4, thorough=len(later), search=6)[tier]]
+    for lines in later:
+        cases.append(['case %d cluster' % idx] + lines); idx += 1
     # random multi-step cases
     for _ in range(dict(quick=60, thorough=3000, search=600)[tier]):
         n = rng.range(2, 4)
@@ -128,6 +152,7 @@ def generate(rng, tier):
 
 
 def canon(line, out):
+    if line.startswith('dist-put'): return out.split(' ts=')[0]
     return 'x' if line.startswith('sel ') else out
 
 
@@ -139,6 +164,25 @@ def oracle(case, impl):
         t = line.split()
         if out.startswith(('crash', 'panic', 'timeout')):
             bad.append('%s: %s' % (line, out))
+        if t[0] == 'dist-put' and out.startswith('recv'):
+            # replicated later: every member whose storage answers must hold the write after the batch tick
+            silent = {int(l.split()[1]) for l in case[:i] if l.startswith('hangnext')}
+            members = set()
+            for l in case[:i]:
+                if l.startswith('dist-change'):
+                    g = l.split()
+                    for x in ([] if g[2] == '-' else g[2].split(',')): members.discard(int(x.split('@')[1]))
+                    for x in ([] if g[3] == '-' else g[3].split(',')): members.add(int(x.split('@')[1]))
+            got = set() if out.split()[1] == '-' else {int(x) for x in out.split()[1].split(',')}
+            if silent and (members - silent) - got:
+                bad.append('%s: the write never reached the responsive member(s) %s: not replicated later while member %s stays silent' % (line, sorted((members - silent) - got), sorted(silent)))
+        if t[0] == 'poll-wait' and any(l.startswith('hangnext') for l in case[:i]):
+            # the repair cycle of a healthy node went round: what the issuer wrote locally is now readable there
+            j = int(t[1])
+            for k in range(i + 1, len(case)):
+                g = case[k].split()
+                if g[0] == 'get' and int(g[1]) == j and not impl[k].startswith('doc'):
+                    bad.append('%s: node %d never fetched document %s from the issuer: its repair cycle is stuck behind the silent member' % (line, j, g[2]))
         if t[0] in ('wput', 'wdel') and 'ts=' in out:
             issuer = int(t[1]); S = [] if t[2] == '-' else [int(x) for x in t[2].split(',')]
             doc_id = int(t[3]); ts = int(out.split('ts=')[1].split()[0])
